@@ -243,12 +243,14 @@ func variantsHistory(c *Ctx, id int) {
 			if v.Hash != b.Hash {
 				continue
 			}
+			pre := accBefore(f, b, v)
 			gerr := f.Gossip([]*nom.AccountBlock{v})
 			res := "accepted"
 			if gerr != nil {
 				res = "rejected"
 			}
-			c.Emit("variant user %s | %s", vk.name, res)
+			accEmit(c, f, "user", "block", vk.name, pre, b, gerr)
+			c.Emit("variant user %s => %s", vk.name, res)
 			c.Hit("variant-" + vk.name + "-" + res)
 			if gerr == nil {
 				// what the follower now holds for this hash
@@ -324,7 +326,7 @@ func variantsHistory(c *Ctx, id int) {
 								// known finding F9 again: the block is pooled with the served changes hash even though the momentum is refused
 								poisoned = true
 							}
-							c.Emit("variant user-in-momentum %s | %s", bv.name(), res)
+							c.Emit("variant user-in-momentum %s => %s", bv.name(), res)
 							c.Hit("lie-user-" + bv.name() + "-" + res)
 							if lerr == nil {
 								if hb, _ := f.ch.GetFrontierAccountStore(b.Address).ByHash(b.Hash); hb != nil {
@@ -348,7 +350,7 @@ func variantsHistory(c *Ctx, id int) {
 						if lerr != nil {
 							res = "rejected"
 						}
-						c.Emit("variant momentum %s | %s", fv.name(), res)
+						c.Emit("variant momentum %s => %s", fv.name(), res)
 						c.Hit("momentum-variant-" + fv.name() + "-" + res)
 						if lerr == nil {
 							hm, _ := f.ch.GetFrontierMomentumStore().GetMomentumByHash(m.Hash)
@@ -468,7 +470,7 @@ func variantsHistory(c *Ctx, id int) {
 					if lerr != nil {
 						res = "rejected"
 					}
-					c.Emit("variant contract %s | %s", kind, res)
+					c.Emit("variant contract %s => %s", kind, res)
 					c.Hit("lie-" + kind + "-" + res)
 					lied = true
 					break
